@@ -612,7 +612,7 @@ Qed.
 Definition auth_cfg : scfg :=
   {| domain := bs "localhost"; has_mod := true; op_auth := true; op_fbp := false; op_fev := false; op_spp := false;
      proto := bs "p"; max_clients := 10; max_subs := 10; max_payload_cfg := 1000; max_inflight := 10; max_message := 1000;
-     keepalive := 60; min_keepalive := 10; max_conns := 10; pool_budget := 100000 |}.
+     keepalive := 60; min_keepalive := 10; max_conns := 10; pool_budget := 100000; max_channels := 100 |}.
 Definition auth_ops : list op :=
   [Open 1;
    Frame 1 (build "CONNECT" [(bs "version", VNum 1); (bs "heartbeat_interval", VNum 0)]) None [] [];
